@@ -16,6 +16,7 @@ CONSTANTS
   BurstSizes = {1, 2}
   PskIds = {}
   PskValues = {"none"}
+  JitterChoices = {99999}
   Deviations = {"F12", "F14"}
   MaxApps = 0
   Depth = 150
